@@ -673,7 +673,7 @@ def build(tier, seed):
                  "Bc_dofs_known_unknown": extract.get(SP, "_Simu.Bc_dofs_known_unknown").describe(), "Get_dofs_nodes": extract.get(BC, "BoundaryCondition.Get_dofs_nodes").describe(),
                  "_Solver_Apply_Dirichlet": extract.get(SP, "_Simu._Solver_Apply_Dirichlet").describe()}
     return dict(
-        obs=obs, level="proof", min_obligations=15,
+        obs=obs, level="other", min_obligations=15,
         explanation=("The elimination solver is executed from the extracted source in a formal block algebra: for matrices of any size and any known/unknown split the returned "
                      "vector holds the prescribed values and satisfies the free rows, given the linear-solver contract. The index helpers, the incremental Dirichlet values, "
                      "orphan handling and the library call sites are decided from the source. The Lagrange bordered system, the installed back ends and the Newton path are "
